@@ -2323,6 +2323,8 @@ class HDKey(Key):
             ki_x = ki.x()
             ki_y = ki.y()
 
+        if not ki_x and not ki_y:
+            raise BKeyError("Key cannot be the point at infinity. Try another index number.")
         if ki_y % 2:
             prefix = '03'
         else:
